@@ -9,7 +9,7 @@
    modelled with the debug-build overflow check (explicit Panic); the theorems show that
    the checks cannot fire on the stated domain, so the release build (wrapping) agrees. *)
 From Coq Require Import NArith List Bool.
-From V Require Import lib.Words gen.GenPool.
+From V Require Import lib.Words gen.GenPool spec.PoolSpec.
 Import ListNotations.
 Open Scope N_scope.
 
@@ -134,11 +134,33 @@ Arguments fq_new {T}.
 Arguments fq_push {T}.
 Arguments fq_pop {T}.
 Arguments fq_remove {T}.
+Arguments fq_remove_loop {T}.
 Arguments fq_sz {T}.
 Arguments fq_can_push {T}.
 Arguments fq_how_much_free_space {T}.
 Arguments slot {T}.
 Arguments put {T}.
+
+(* operation sequences on the queue, with the operation / answer alphabet of spec/PoolSpec.v *)
+Definition fq_step {T : Type} (q : fq T) (o : qop T) : res (qans T * fq T) :=
+  match o with
+  | QPush x => match fq_push q x with Panic p => Panic p | Ok (b, q') => Ok (APush b, q') end
+  | QPop => match fq_pop q with Panic p => Panic p | Ok (r, q') => Ok (APop r, q') end
+  | QRemove f => match fq_remove f q with Panic p => Panic p | Ok (r, q') => Ok (ARemove r, q') end
+  | QSize => Ok (ASize (fq_sz q), q)
+  | QCanPush => Ok (ACan (fq_can_push q), q)
+  | QFree => match fq_how_much_free_space q with Panic p => Panic p | Ok n => Ok (AFree n, q) end
+  end.
+
+Fixpoint fq_run {T : Type} (q : fq T) (ops : list (qop T)) : res (list (qans T)) :=
+  match ops with
+  | [] => Ok []
+  | o :: r =>
+    match fq_step q o with
+    | Panic p => Panic p
+    | Ok (a, q') => match fq_run q' r with Panic p => Panic p | Ok l => Ok (a :: l) end
+    end
+  end.
 
 (* ------------------------------------------------------------------------------------ *)
 (* The pool                                                                              *)
@@ -200,49 +222,52 @@ Record pstate := mkps {
   cur_arc : option N;            (* FinalJoinHandle held *)
   next_arc : N;
   joined : list (N * N);         (* (work id, value returned by its join) *)
-  unwraps : list (N * bool)      (* (arc, did try_unwrap succeed) *)
+  unwraps : list (N * bool * bool); (* (arc, were all join handles consumed, did try_unwrap succeed) *)
+  n_notify : N                   (* ghost: number of notify_all calls so far (observation only) *)
 }.
 
 Definition set_wq (s : pstate) (x : workq) : pstate :=
   mkps x (wpcs s) (sub s) (waiters s) (lock_owner s) (executed s) (strong s) (spawned s) (batch_n s)
-       (handles s) (cur_arc s) (next_arc s) (joined s) (unwraps s).
+       (handles s) (cur_arc s) (next_arc s) (joined s) (unwraps s) (n_notify s).
 Definition set_wpcs (s : pstate) (x : list wpc) : pstate :=
   mkps (wq s) x (sub s) (waiters s) (lock_owner s) (executed s) (strong s) (spawned s) (batch_n s)
-       (handles s) (cur_arc s) (next_arc s) (joined s) (unwraps s).
+       (handles s) (cur_arc s) (next_arc s) (joined s) (unwraps s) (n_notify s).
 Definition set_sub (s : pstate) (x : spc) : pstate :=
   mkps (wq s) (wpcs s) x (waiters s) (lock_owner s) (executed s) (strong s) (spawned s) (batch_n s)
-       (handles s) (cur_arc s) (next_arc s) (joined s) (unwraps s).
+       (handles s) (cur_arc s) (next_arc s) (joined s) (unwraps s) (n_notify s).
 Definition set_waiters (s : pstate) (x : list tid) : pstate :=
   mkps (wq s) (wpcs s) (sub s) x (lock_owner s) (executed s) (strong s) (spawned s) (batch_n s)
-       (handles s) (cur_arc s) (next_arc s) (joined s) (unwraps s).
+       (handles s) (cur_arc s) (next_arc s) (joined s) (unwraps s) (n_notify s).
 Definition set_executed (s : pstate) (x : list N) : pstate :=
   mkps (wq s) (wpcs s) (sub s) (waiters s) (lock_owner s) x (strong s) (spawned s) (batch_n s)
-       (handles s) (cur_arc s) (next_arc s) (joined s) (unwraps s).
+       (handles s) (cur_arc s) (next_arc s) (joined s) (unwraps s) (n_notify s).
 Definition set_strong (s : pstate) (x : N -> N) : pstate :=
   mkps (wq s) (wpcs s) (sub s) (waiters s) (lock_owner s) (executed s) x (spawned s) (batch_n s)
-       (handles s) (cur_arc s) (next_arc s) (joined s) (unwraps s).
+       (handles s) (cur_arc s) (next_arc s) (joined s) (unwraps s) (n_notify s).
 Definition set_spawned (s : pstate) (x : list job) (b : N) : pstate :=
   mkps (wq s) (wpcs s) (sub s) (waiters s) (lock_owner s) (executed s) (strong s) x b
-       (handles s) (cur_arc s) (next_arc s) (joined s) (unwraps s).
+       (handles s) (cur_arc s) (next_arc s) (joined s) (unwraps s) (n_notify s).
 Definition set_handles (s : pstate) (x : list N) : pstate :=
   mkps (wq s) (wpcs s) (sub s) (waiters s) (lock_owner s) (executed s) (strong s) (spawned s) (batch_n s)
-       x (cur_arc s) (next_arc s) (joined s) (unwraps s).
+       x (cur_arc s) (next_arc s) (joined s) (unwraps s) (n_notify s).
 Definition set_arc (s : pstate) (x : option N) (nx : N) : pstate :=
   mkps (wq s) (wpcs s) (sub s) (waiters s) (lock_owner s) (executed s) (strong s) (spawned s) (batch_n s)
-       (handles s) x nx (joined s) (unwraps s).
+       (handles s) x nx (joined s) (unwraps s) (n_notify s).
 Definition set_joined (s : pstate) (x : list (N * N)) : pstate :=
   mkps (wq s) (wpcs s) (sub s) (waiters s) (lock_owner s) (executed s) (strong s) (spawned s) (batch_n s)
-       (handles s) (cur_arc s) (next_arc s) x (unwraps s).
-Definition set_unwraps (s : pstate) (x : list (N * bool)) : pstate :=
+       (handles s) (cur_arc s) (next_arc s) x (unwraps s) (n_notify s).
+Definition set_unwraps (s : pstate) (x : list (N * bool * bool)) : pstate :=
   mkps (wq s) (wpcs s) (sub s) (waiters s) (lock_owner s) (executed s) (strong s) (spawned s) (batch_n s)
-       (handles s) (cur_arc s) (next_arc s) (joined s) x.
+       (handles s) (cur_arc s) (next_arc s) (joined s) x (n_notify s).
 
 Definition set_wpc (s : pstate) (i : nat) (pc : wpc) : pstate := set_wpcs s (set_nth (wpcs s) i pc).
 
 Definition upd (f : N -> N) (a v : N) : N -> N := fun x => if x =? a then v else f x.
 
 (* cvar.notify_all(): every waiter becomes runnable *)
-Definition notify_all (s : pstate) : pstate := set_waiters s [].
+Definition notify_all (s : pstate) : pstate :=
+  mkps (wq s) (wpcs s) (sub s) [] (lock_owner s) (executed s) (strong s) (spawned s) (batch_n s)
+       (handles s) (cur_arc s) (next_arc s) (joined s) (unwraps s) (n_notify s + 1).
 (* cvar.wait(guard): the thread joins the waiter set (and releases the lock) *)
 Definition wait (s : pstate) (t : tid) : pstate := set_waiters s (t :: waiters s).
 
@@ -260,7 +285,7 @@ Definition pool_workers (num_threads : N) : nat :=
   N.to_nat (N.max 1 (N.min num_threads MAX_THREADS)).
 
 Definition init (nworkers : nat) : pstate :=
-  mkps wq_default (repeat WTop nworkers) SIdle [] None [] (fun _ => 0) [] 0 [] None 0 [] [].
+  mkps wq_default (repeat WTop nworkers) SIdle [] None [] (fun _ => 0) [] 0 [] None 0 [] [] 0.
 
 Definition pool_new (num_threads : N) : pstate := init (pool_workers num_threads).
 
@@ -423,7 +448,7 @@ Section Pool.
     | SIdle, Some a =>
       let okk := strong s a =? 1 in
       Some (Ok (set_unwraps (set_arc (set_strong s (upd (strong s) a (strong s a - 1))) None (next_arc s))
-                            ((a, okk) :: unwraps s)))
+                            ((a, match handles s with [] => true | _ => false end, okk) :: unwraps s)))
     | _, _ => None
     end.
 
